@@ -43,7 +43,39 @@ SIGS = [
     [("x", "PO", 0, None), ("y", "PO", 0, None), ("z", "PK", 0, "arr"), ("w", "KO", 0, None)],
     [("x", "PO", 0, "arr"), ("kw", "VK", 0, None)],
     [("self", "PO", 0, None), ("x", "PO", 1, "arr"), ("k", "KO", 0, "arr"), ("kwargs", "VK", 0, None)],
+    # names a wrapper is likely to use for its own bookkeeping
+    [("x", "PK", 0, "arr"), ("bound", "PK", 1, None), ("memos", "KO", 1, None), ("kw", "VK", 0, None)],
+    [("fn", "PK", 0, "arr"), ("args", "PK", 1, None), ("kwargs", "KO", 0, "arr"), ("out", "KO", 1, None)],
 ]
+INTERNAL_NAMES = ["bound", "memos", "args", "kwargs", "fn", "out", "typechecker", "module", "param_fn", "full_fn",
+                  "param_signature", "full_signature", "output_name", "self", "cls"]
+
+
+class AlwaysEq:
+    """a default value that compares equal to everything (like unittest.mock.ANY)"""
+
+    def __eq__(self, other):
+        return True
+
+    def __ne__(self, other):
+        return False
+
+    __hash__ = object.__hash__
+
+
+class _NoTruth:
+    def __bool__(self):
+        raise ValueError("the truth value of this comparison is ambiguous")
+
+
+class AmbiguousEq:
+    """a default value whose == yields something without a truth value (like a NumPy array)"""
+
+    def __eq__(self, other):
+        return _NoTruth()
+
+    __ne__ = __eq__
+    __hash__ = object.__hash__
 CALLABLES = ["def", "method", "classmethod", "staticmethod", "property", "lambda", "async", "def-str"]
 
 
@@ -65,9 +97,9 @@ def instances(tier, seed):
     return out
 
 
-BOUNDS = dict(signatures="%d signatures (all five parameter kinds, defaults, names colliding with T0/default0/ret0/ret1/check_single_arg/the function's own name/self/args/kwargs)" % len(SIGS),
+BOUNDS = dict(signatures="%d signatures (all five parameter kinds, defaults, names colliding with T0/default0/ret0/ret1/check_single_arg/the function's own name/self/args/kwargs/bound/memos/fn/out; non-array defaults with always-true and truth-less ==)" % len(SIGS),
               callables=CALLABLES, typecheckers=["typeguard", "beartype"],
-              calls="per signature: canonical positional, all-keyword, missing required, surplus positional, unexpected keyword, duplicate, and (with **kwargs) extra keywords named ret0/T0/default0/x",
+              calls="per signature: canonical positional, all-keyword, missing required, surplus positional, unexpected keyword, duplicate, and (with **kwargs) extra keywords named ret0/T0/default0/x and 15 names a wrapper may use internally",
               shapes="array parameters rank 1, result rank 1, sizes unbounded (consistent iff all equal)",
               gensym="collections of 0..3 symbolic names of length <=4 (thorough 5) over the alphabet 'Tret012d'")
 STUBS = c01.STUBS + ["_gensym: a list-backed set stand-in whose __contains__ is element-wise (symbolic) string equality replaces the frozenset argument"]
@@ -243,9 +275,11 @@ def scenario(inst, V):
     REC["ret"] = V.arr([rs])
     name = "f"
     g = {"A": A, "_record": _record}
+    odd = [AlwaysEq, AmbiguousEq, object]
     for p in sig:
         if p[2]:
-            g[f"D_{p[0]}"] = V.arr([V.int(f"d_{p[0]}", 0)]) if p[3] == "arr" else object()
+            # non-array defaults: objects with unusual == (a wrapper must test "has a default" by identity)
+            g[f"D_{p[0]}"] = V.arr([V.int(f"d_{p[0]}", 0)]) if p[3] == "arr" else odd[len([k for k in g if k.startswith("D_")]) % 3]()
     src = make_source(sig, name, inst["ret"], is_async=(ck == "async"), is_lambda=(ck == "lambda"),
                       stringify=(ck == "def-str"))
     exec(src, g)
@@ -318,7 +352,7 @@ def scenario(inst, V):
         forms = [("get", [], {})]
     else:
         fsig = sig[1:] if ck in ("method", "classmethod") else sig
-        forms = call_forms(fsig, vals, ["ret0", "T0", "default0", "ret1"] + [p[0] for p in fsig if p[1] == "PO"])
+        forms = call_forms(fsig, vals, ["ret0", "T0", "default0", "ret1"] + INTERNAL_NAMES + [p[0] for p in fsig if p[1] == "PO"])
     consistent_all = None
     obs = []
     for label, args, kwargs in forms:
